@@ -13,7 +13,7 @@ from engine.chx import Assume, Violation, reach
 
 PROPERTY = 'C18'
 LEVEL = 'model_checking'
-REACH_POINTS = ['rebind.ok', 'subclassed.ok', 'subclassed.raised', 'ctor.ok', 'ctor.error', 'late.ok', 'late.error', 'split.ok', 'split.error', 'class.ok', 'class.error',
+REACH_POINTS = ['subclassed.values', 'rebind.ok', 'subclassed.ok', 'subclassed.raised', 'ctor.ok', 'ctor.error', 'late.ok', 'late.error', 'split.ok', 'split.error', 'class.ok', 'class.error',
                 'roundtrip']
 
 SIG_SRC = {
@@ -126,17 +126,24 @@ def h_late(params, p, m0, m1, m2, m3, m4):
   return None
 
 
-def h_split(params, c0, c1, c2, c3, c4, p, m0, m1, m2, m3, m4, override):
-  """Keyword binding at construction, positional + keyword binding at call time (override on/off)."""
+def h_split(params, c0, c1, c2, c3, c4, p, m0, m1, m2, m3, m4, override, ctor_override=False):
+  """Keyword binding at construction, positional + keyword binding at call time (override on/off, enabled at call time
+  or at construction)."""
   name = params['sig']
   f, F = FNS[name], FUN[name]
   pos, has_var, has_kw, kwonly = _params(f)
+  # keyword names that are not parameters all behave like 'zz' (unexpected keyword / collected by **kw): only 'zz' is varied
+  for i, n in enumerate(KW_NAMES):
+    if n != 'zz' and n not in pos and n not in kwonly and ((c0, c1, c2, c3, c4)[i] or (m0, m1, m2, m3, m4)[i]):
+      raise Assume()
   p = _count(p, 0, 3)
   ckw = {n: 100 + i for i, n in enumerate(KW_NAMES) if (c0, c1, c2, c3, c4)[i]}
   args = [10, 20, 30][:p]
   kwargs = {n: 200 + i for i, n in enumerate(KW_NAMES) if (m0, m1, m2, m3, m4)[i]}
+  if ctor_override and not override:
+    raise Assume()          # (ctor_override refines override: where overriding was switched on)
   try:
-    obj = F(**ckw)
+    obj = F(**ckw, override_args=True) if ctor_override else F(**ckw)
   except TypeError:
     raise Assume()          # construction-time errors are h_ctor's subject
   # effective arguments
@@ -156,7 +163,16 @@ def h_split(params, c0, c1, c2, c3, c4, p, m0, m1, m2, m3, m4, override):
       conflict = True
     eff[k] = v
   if dup_at_call:
-    raise Assume()          # f(1, a=2): "multiple values" -- covered by h_late
+    # f(1, a=2): "multiple values" within one call is an error whatever the override setting
+    ck = dict(kwargs)
+    if override and not ctor_override:
+      ck['override_args'] = True
+    r2, e2 = _call(obj, args, ck)
+    reach('split.error')
+    if e2 != 'TypeError':
+      return Violation(f'split:duplicate_argument_in_one_call_accepted:{name}',
+                       f'ctor {ckw} call *{args} **{kwargs} override={override} at_ctor={ctor_override} -> {r2!r}')
+    return None
   if conflict and not override:
     # documented: a new value for a bound argument needs override_args=True
     r2, e2 = _call(obj, args, dict(kwargs))
@@ -180,7 +196,7 @@ def h_split(params, c0, c1, c2, c3, c4, p, m0, m1, m2, m3, m4, override):
     direct_args = prefix + varargs
   r1, e1 = _call(f, direct_args, rest)
   call_kwargs = dict(kwargs)
-  if override:
+  if override and not ctor_override:
     call_kwargs['override_args'] = True
   r2, e2 = _call(obj, args, call_kwargs)
   reach('split.ok' if e1 is None else 'split.error')
@@ -301,6 +317,66 @@ def h_subclassed(params, v, use_z, again):
   return None
 
 
+class Tag(pg.Functor):
+  """A class-based functor whose optional arguments have non-None defaults (so None is a value, not an absence)."""
+  name: str
+  suffix: pg.typing.Str().noneable() = '!'
+  n: pg.typing.Int().noneable() = 3
+
+  def _call(self):
+    return (self.name, self.suffix, self.n)
+
+
+def _tag(name, suffix='!', n=3):
+  return (name, suffix, n)
+
+
+_ABSENT = object()
+SUFFIXES = [_ABSENT, None, '', 'x']
+NS = [_ABSENT, None, 0, 5]
+
+
+def h_subclassed_values(params, cs, cn, ks, kn, positional, ctor_override):
+  """Falsy and None values given at call time to a class-based functor are values like any other."""
+  from engine.chx import concretize, untraced
+  cs, cn, ks, kn = (concretize(x, range(4)) for x in (cs, cn, ks, kn))
+  positional, ctor_override = bool(positional), bool(ctor_override)
+  with untraced():
+    ckw = {}
+    if SUFFIXES[cs] is not _ABSENT:
+      ckw['suffix'] = SUFFIXES[cs]
+    if NS[cn] is not _ABSENT:
+      ckw['n'] = NS[cn]
+    call = {}
+    if SUFFIXES[ks] is not _ABSENT:
+      call['suffix'] = SUFFIXES[ks]
+    if NS[kn] is not _ABSENT:
+      call['n'] = NS[kn]
+    rebinds = any(k in ckw for k in call)
+    eff = dict(ckw)
+    eff.update(call)
+    want = _tag('t', **eff)
+    obj = Tag('t', **ckw, override_args=True) if ctor_override else Tag('t', **ckw)
+    args, kwargs = [], dict(call)
+    if positional and 'suffix' in call:
+      # call-time positionals are matched from the first parameter on: name is given again (same value), then suffix
+      args = ['t', kwargs.pop('suffix')]
+    if not ctor_override:
+      kwargs['override_args'] = True
+    reach('subclassed.values')
+    try:
+      got = obj(*args, **kwargs)
+    except TypeError as e:
+      return Violation('subclassed:call_raises', f'Tag(t, **{ckw})(*{args}, **{kwargs}): {e!r}'[:300])
+    if got != want:
+      return Violation('subclassed:call_time_value_ignored' + (':none' if any(v is None for v in call.values()) else ''),
+                       f'Tag(t, **{ckw})(*{args}, **{call}) -> {got!r}, direct call gives {want!r}')
+    after = obj()
+    if after != _tag('t', **ckw):
+      return Violation('subclassed:call_time_override_persisted', f'{after!r} vs {_tag("t", **ckw)!r}')
+  return None
+
+
 # ---- symbolized classes --------------------------------------------------------------------
 CLASS_SRC = {
     'K2d': 'class K2d:\n  def __init__(self, a, b=2):\n    self.a, self.b = a, b',
@@ -363,7 +439,7 @@ def h_signature(params, dummy):
 
 
 _CALL = [('p', 'int')] + [(f'm{i}', 'bool') for i in range(5)]
-_SPLIT = [(f'c{i}', 'bool') for i in range(5)] + _CALL + [('override', 'bool')]
+_SPLIT = [(f'c{i}', 'bool') for i in range(5)] + _CALL + [('override', 'bool'), ('ctor_override', 'bool')]
 
 
 def shards(tier, seed):
@@ -373,13 +449,16 @@ def shards(tier, seed):
   for name in SIG_SRC:
     out.append(dict(name=f'ctor:{name}', fn='h_ctor', params=dict(sig=name), args=_CALL, budget_s=b, per_path_s=20))
     out.append(dict(name=f'late:{name}', fn='h_late', params=dict(sig=name), args=_CALL, budget_s=b, per_path_s=20))
-    out.append(dict(name=f'split:{name}', fn='h_split', params=dict(sig=name), args=_SPLIT, budget_s=b * 2, per_path_s=20))
+    out.append(dict(name=f'split:{name}', fn='h_split', params=dict(sig=name), args=_SPLIT, budget_s=b * 3, expect_s=60, per_path_s=20))
     out.append(dict(name=f'signature:{name}', fn='h_signature', params=dict(sig=name), args=[('dummy', 'int')], budget_s=10, per_path_s=10))
   out.append(dict(name='rebind', fn='h_rebind', params={},
                   args=[(n, 'bool') for n in ('c_scale', 'c_bias', 'r_k', 'r_scale', 'r_bias', 'r_mode', 'r_extra', 'order', 'via_setattr')],
                   budget_s=b * 2, per_path_s=20))
   out.append(dict(name='subclassed', fn='h_subclassed', params={}, args=[('v', 'int'), ('use_z', 'bool'), ('again', 'bool')],
                   budget_s=b, per_path_s=20))
+  out.append(dict(name='subclassed_values', fn='h_subclassed_values', params={},
+                  args=[(n, 'int') for n in ('cs', 'cn', 'ks', 'kn')] + [('positional', 'bool'), ('ctor_override', 'bool')],
+                  budget_s=b * 2, expect_s=40, per_path_s=20))
   for name in CLASS_SRC:
     out.append(dict(name=f'class:{name}', fn='h_class', params=dict(cls=name), args=_CALL, budget_s=b, per_path_s=20))
   return out
